@@ -60,4 +60,144 @@ theorem dim_storage_set (dflt : Int) (sizes : List (String × Int)) (vs : List E
     (sz : List (String × Int)) (p : List Expr) :
     setDimStorage dflt sizes (.dim vs i d sz p) = .dim vs i dflt sizes p := rfl
 
+
+/-! ### whole-tree statements: the requested size reaches *every* DIM of the program -/
+open CocoVerif.Model.Passes
+
+mutual
+  /-- every DIM statement below `s` (at any nesting depth the passes reach) satisfies `P` -/
+  def DimsSat (P : Bool → Int → List (String × Int) → Prop) : Stmt → Prop
+    | .stmts _ ss _ => DimsSatList P ss
+    | .if_ _ b _ => DimsSat P b
+    | .ifElse _ b elifs els _ => DimsSat P b ∧ DimsSatList P elifs ∧ DimsSatOpt P els
+    | .dim _ i d sz _ => P i d sz
+    | _ => True
+  def DimsSatList (P : Bool → Int → List (String × Int) → Prop) : List Stmt → Prop
+    | [] => True
+    | s :: ss => DimsSat P s ∧ DimsSatList P ss
+  def DimsSatOpt (P : Bool → Int → List (String × Int) → Prop) : Option Stmt → Prop
+    | some s => DimsSat P s
+    | none => True
+end
+
+/-- every DIM statement below `s` carries default `d` -/
+abbrev DimsHave (d : Int) : Stmt → Prop := DimsSat (fun _ d' _ => d' = d)
+
+/- a pass that rewrites DIM statements so that `P` holds and leaves every other statement alone
+establishes `P` on the whole tree -/
+mutual
+  theorem pass_reaches_stmt (P : Bool → Int → List (String × Int) → Prop) (f : Stmt → Stmt)
+      (hdim : ∀ vs i d sz p, ∃ vs' i' d' sz' p', f (.dim vs i d sz p) = .dim vs' i' d' sz' p' ∧ P i' d' sz')
+      (hother : ∀ s, (∀ vs i d sz p, s ≠ .dim vs i d sz p) → f s = s) :
+      (s : Stmt) → DimsSat P (mapStmt f s)
+    | .stmts m ss p => by
+        simp only [mapStmt]; rw [hother _ (by intros; simp)]; simp only [DimsSat]
+        exact pass_reaches_list P f hdim hother ss
+    | .if_ c b p => by
+        simp only [mapStmt]; rw [hother _ (by intros; simp)]; simp only [DimsSat]
+        exact pass_reaches_stmt P f hdim hother b
+    | .ifElse c b elifs els p => by
+        simp only [mapStmt]; rw [hother _ (by intros; simp)]; simp only [DimsSat]
+        exact ⟨pass_reaches_stmt P f hdim hother b, pass_reaches_list P f hdim hother elifs,
+               pass_reaches_opt P f hdim hother els⟩
+    | .dim vs i d sz p => by
+        obtain ⟨vs', i', d', sz', p', h, hp⟩ := hdim vs i d sz p
+        simp only [mapStmt]; rw [h]; simpa [DimsSat] using hp
+    | .assign .. | .run .. | .goto .. | .onErr .. | .onBrk .. | .onGo .. | .comment .. | .print ..
+    | .sound .. | .poke .. | .cls .. | .data .. | .kw .. | .for_ .. | .next .. | .read .. | .input ..
+    | .width .. | .code .. | .expStmt .. | .rawStmt .. => by
+        simp only [mapStmt]; rw [hother _ (by intros; simp)]; simp [DimsSat]
+  theorem pass_reaches_list (P : Bool → Int → List (String × Int) → Prop) (f : Stmt → Stmt)
+      (hdim : ∀ vs i d sz p, ∃ vs' i' d' sz' p', f (.dim vs i d sz p) = .dim vs' i' d' sz' p' ∧ P i' d' sz')
+      (hother : ∀ s, (∀ vs i d sz p, s ≠ .dim vs i d sz p) → f s = s) :
+      (ss : List Stmt) → DimsSatList P (mapStmts f ss)
+    | [] => by simp [mapStmts, DimsSatList]
+    | s :: ss => by
+        simp only [mapStmts, DimsSatList]
+        exact ⟨pass_reaches_stmt P f hdim hother s, pass_reaches_list P f hdim hother ss⟩
+  theorem pass_reaches_opt (P : Bool → Int → List (String × Int) → Prop) (f : Stmt → Stmt)
+      (hdim : ∀ vs i d sz p, ∃ vs' i' d' sz' p', f (.dim vs i d sz p) = .dim vs' i' d' sz' p' ∧ P i' d' sz')
+      (hother : ∀ s, (∀ vs i d sz p, s ≠ .dim vs i d sz p) → f s = s) :
+      (o : Option Stmt) → DimsSatOpt P (mapOptStmt f o)
+    | none => by simp [mapOptStmt, DimsSatOpt]
+    | some s => by simp only [mapOptStmt, DimsSatOpt]; exact pass_reaches_stmt P f hdim hother s
+end
+
+theorem setDimStorage_other (d : Int) (sz : List (String × Int)) (s : Stmt)
+    (h : ∀ vs i d sz p, s ≠ .dim vs i d sz p) : setDimStorage d sz s = s := by
+  cases s <;> first | rfl | exact absurd rfl (h _ _ _ _ _)
+
+theorem setDimInit_other (flag : Bool) (s : Stmt)
+    (h : ∀ vs i d sz p, s ≠ .dim vs i d sz p) : setDimInit flag s = s := by
+  cases s <;> first | rfl | exact absurd rfl (h _ _ _ _ _)
+
+theorem storage_reaches_stmt (d : Int) (sz : List (String × Int)) (s : Stmt) :
+    DimsSat (fun _ d' sz' => d' = d ∧ sz' = sz) (mapStmt (setDimStorage d sz) s) :=
+  pass_reaches_stmt _ _ (fun vs i _ _ p => ⟨vs, i, d, sz, p, rfl, rfl, rfl⟩) (setDimStorage_other d sz) s
+
+/-- the pre-initialisation flag reaches every DIM of the tree (C03: no declared array is left
+uninitialised when the tool was asked to pre-initialise; the flag is what makes `Emit` write the
+fill loops, `C03.fill_loops`) -/
+theorem init_reaches_stmt (flag : Bool) (s : Stmt) :
+    DimsSat (fun i _ _ => i = flag) (mapStmt (setDimInit flag) s) :=
+  pass_reaches_stmt _ _ (fun vs _ d sz p => ⟨vs, flag, d, sz, p, rfl, rfl⟩) (setDimInit_other flag) s
+
+mutual
+  theorem DimsSat_mono {P Q : Bool → Int → List (String × Int) → Prop} (h : ∀ i d sz, P i d sz → Q i d sz) :
+      (s : Stmt) → DimsSat P s → DimsSat Q s
+    | .stmts _ ss _ => by simp only [DimsSat]; exact DimsSatList_mono h ss
+    | .if_ _ b _ => by simp only [DimsSat]; exact DimsSat_mono h b
+    | .ifElse _ b elifs els _ => by
+        simp only [DimsSat]
+        exact fun ⟨h1, h2, h3⟩ => ⟨DimsSat_mono h b h1, DimsSatList_mono h elifs h2, DimsSatOpt_mono h els h3⟩
+    | .dim _ i d sz _ => by simp only [DimsSat]; exact h i d sz
+    | .assign .. | .run .. | .goto .. | .onErr .. | .onBrk .. | .onGo .. | .comment .. | .print ..
+    | .sound .. | .poke .. | .cls .. | .data .. | .kw .. | .for_ .. | .next .. | .read .. | .input ..
+    | .width .. | .code .. | .expStmt .. | .rawStmt .. => by simp [DimsSat]
+  theorem DimsSatList_mono {P Q : Bool → Int → List (String × Int) → Prop} (h : ∀ i d sz, P i d sz → Q i d sz) :
+      (ss : List Stmt) → DimsSatList P ss → DimsSatList Q ss
+    | [] => by simp [DimsSatList]
+    | s :: ss => by
+        simp only [DimsSatList]
+        exact fun ⟨h1, h2⟩ => ⟨DimsSat_mono h s h1, DimsSatList_mono h ss h2⟩
+  theorem DimsSatOpt_mono {P Q : Bool → Int → List (String × Int) → Prop} (h : ∀ i d sz, P i d sz → Q i d sz) :
+      (o : Option Stmt) → DimsSatOpt P o → DimsSatOpt Q o
+    | none => by simp [DimsSatOpt]
+    | some s => by simp only [DimsSatOpt]; exact DimsSat_mono h s
+end
+
+/-- **Every DIM of the program gets the requested default size** — the source's DIM statements
+at any depth (inside multi-statement lines, IF bodies, ELSE-IF chains) through the storage pass,
+and, since repair 2c284fb, the declarations the tool writes for arrays the source never DIMs.
+For every program, every option value and every list of implicit array names. -/
+theorem storage_reaches_every_dim (d : Int) (sz : List (String × Int)) (init : Bool)
+    (implicit : List String) (p : Prog) :
+    ∀ l ∈ implicit.map (implicitDim init d) ++ (mapProg (setDimStorage d sz) p).lines,
+      DimsHave d l.body := by
+  intro l hl
+  rcases List.mem_append.mp hl with h | h
+  · obtain ⟨n, _, rfl⟩ := List.mem_map.mp h
+    simp [implicitDim, DimsHave, DimsSat]
+  · simp only [mapProg, List.mem_map] at h
+    obtain ⟨l0, _, rfl⟩ := h
+    exact DimsSat_mono (fun _ _ _ h => h.1) _ (storage_reaches_stmt d sz l0.body)
+
+/-- the pre-initialisation flag reaches every DIM statement of the program, at any depth: with
+`--initialize-vars` no declared array is left without its fill loop (C03's last clause for arrays) -/
+theorem init_reaches_every_dim (flag : Bool) (p : Prog) :
+    ∀ l ∈ (mapProg (setDimInit flag) p).lines, DimsSat (fun i _ _ => i = flag) l.body := by
+  intro l h
+  simp only [mapProg, List.mem_map] at h
+  obtain ⟨l0, _, rfl⟩ := h
+  exact init_reaches_stmt flag l0.body
+
+/-- non-vacuity: a DIM nested in an IF inside a multi-statement line, default 32 before the pass -/
+example : DimsHave 80 (mapStmt (setDimStorage 80 [])
+    (.stmts true [.if_ (.raw "c") (.stmts false [.dim [] false 32 [] []] []) []] [])) :=
+  DimsSat_mono (fun _ _ _ h => h.1) _ (storage_reaches_stmt 80 [] _)
+
+/-- and the predicate is not trivially true: the same tree before the pass does not satisfy it -/
+example : ¬ DimsHave 80 (.stmts true [.if_ (.raw "c") (.stmts false [.dim [] false 32 [] []] []) []] []) := by
+  simp [DimsHave, DimsSat, DimsSatList]
+
 end CocoVerif.Props.C10
